@@ -160,6 +160,14 @@ T = {
            "a NaN duration at an interior index of at least three durations"),
  "S5-C19": ("C19", "checkGradients: valid = (analytical - numerical).maxCoeff() < tol (signed maximum instead of the error norm)",
            "a user gradient that is too small (negative error) in every wrong component"),
+ "S6-C06": ("C06", "SepticSplineND::propagateGradInternal, DIM > 3 branch: d c7 / d h folded into node-state pairs with (J_curr - J_next) where the row has -4 J_curr - 4 J_next",
+           "septic spline in 4 or more dimensions with non-zero jerk at a segment's right node (N >= 2, or N = 1 with end jerk); the 3-D tests use the scalar branch"),
+ "S6-C12": ("C12", "calculateIntegralCost: the serial prefix-sum loop over segment start times fused into the per-segment lambda (running_time captured by reference, advanced by T)",
+           "an executor that visits segments in any order but 0..N-1 (or in parallel: data race) and an integral cost that reads t_global"),
+ "S6-C15": ("C15", "copy assignment re-binds active_time_map_ / active_spatial_map_ only when the source references a user map",
+           "assignment over an optimizer that references a user map from a source that uses its default maps"),
+ "S6-C17": ("C17", "QuadInvTimeMap::toTau returns the first-order series T - 1 for |T - 1| < 1e-4",
+           "a duration within 1e-4 of 1 (not equal to 1): toTau is no longer the inverse of toTime there and steps backwards at the window's edges"),
 }
 EXTRA = os.path.join(V, "seeded", "extra_meta.json")
 if os.path.exists(EXTRA):
